@@ -47,9 +47,10 @@ func ReadLogMessages(inputFilePath string, separator rune, skipHeader bool, mess
 		lines = lines[1:]
 	}
 
-	var message storage.Message
 	var messages []storage.Message
 	for _, line := range lines {
+		// (a line stands for itself: what it leaves out is empty, not the previous line's)
+		var message storage.Message
 		if err := json.Unmarshal([]byte(line[messageColumnIndex]), &message); err != nil {
 			return nil, fmt.Errorf("failed to unmarshal line `%s`: %w", line[messageColumnIndex], err)
 		}
